@@ -187,7 +187,7 @@ func c05RunConc(t rt.TB, c c05Conc) {
 	}
 }
 
-var c05ConcRows = []string{"Merge", "MergeAll", "MergeWith", "CombineLatestN", "CombineLatestWithN", "CombineLatestAll", "Race", "RaceWith", "ZipN", "ZipWithN", "Zip", "ZipAll", "MergeWithN", "Amb", "TakeUntil", "SkipUntil", "BufferWhen", "SampleWhen", "ThrottleWhen"}
+var c05ConcRows = []string{"Merge", "MergeAll", "MergeWith", "CombineLatestN", "CombineLatestWithN", "CombineLatestAll", "Race", "RaceWith", "ZipN", "ZipWithN", "Zip", "ZipAll", "MergeWithN", "Amb", "MergeWith3-4", "CombineLatest4-5", "CombineLatestWith3-4", "Zip4-6", "ZipWith3-5", "ZipAll3-4", "CombineLatestAny", "TakeUntil", "SkipUntil", "BufferWhen", "SampleWhen", "ThrottleWhen"}
 
 func TestC05_ConcurrentMembership(t *testing.T) {
 	reps := 25
@@ -197,20 +197,21 @@ func TestC05_ConcurrentMembership(t *testing.T) {
 	rapid.Check(t, func(t *rapid.T) {
 		op := rapid.SampledFrom(c05ConcRows).Draw(t, "op")
 		row := mrowByName(op)
-		k := row.K[len(row.K)-1]
-		if k > 2 && rapid.Bool().Draw(t, "two") {
-			k = 2
+		k := rapid.SampledFrom(row.K).Draw(t, "k")
+		if k < 2 {
+			k = row.K[len(row.K)-1]
 		}
-		for _, kk := range row.K {
-			if kk == 2 && k != 2 && k != 3 {
-				k = 2
-			}
+		if k > 4 {
+			k = row.K[0] // the set of admissible outputs is enumerated: at most four sources
 		}
 		scripts := make([][]rt.Ev, k)
 		for i := range scripts {
 			n := rapid.IntRange(0, 3).Draw(t, "values")
 			if k == 3 && n > 2 {
 				n = 2
+			}
+			if k >= 4 && n > 1 {
+				n = 1
 			}
 			for j := 1; j <= n; j++ {
 				scripts[i] = append(scripts[i], rt.N(10*i+j))
